@@ -660,6 +660,386 @@ theorem f11RS_reproduces (s : Text) (v : F11) (h : F11RS.parse s = .ok v) : F11R
 
 theorem stable_11RS : Stable F11RS.parse F11RS.ser := stable_of_reproduces _ _ f11RS_reproduces
 
+/-! ### structured parties: 53B, 53D, 59F, 50A (line numbers dropped and written again), 50F, 25P (the one-line form is
+written back on two lines and read as the same value) -/
+
+theorem nameAddr_value (ls : List Text) (r : List Text) (h : parseNameAndAddress ls 0 = .ok r) : r = ls := by
+  unfold parseNameAndAddress at h
+  simp only [List.drop_zero] at h
+  split at h; · cases h
+  split at h; · cases h
+  split at h; · cases h
+  cases h; rfl
+
+/-- 53D -/
+theorem f53D_reproduces (s : Text) (v : OptD) (h : F53D.parse s = .ok v) : F53D.ser v = s := by
+  unfold F53D.parse at h
+  split at h
+  · cases h
+  · rename_i first rest hsp
+    simp only at h
+    split at h
+    · split at h; · cases h
+      split at h; · cases h
+      split at h
+      · rename_i ls hls
+        cases h
+        have := nameAddr_value _ _ hls
+        subst this
+        unfold F53D.ser; simp only
+        rw [← hsp]; exact joinNl_splitNl s
+      · cases h
+      · cases h
+    · split at h
+      · rename_i ls hls
+        cases h
+        have := nameAddr_value _ _ hls
+        subst this
+        unfold F53D.ser; simp only
+        rw [← hsp]; exact joinNl_splitNl s
+      · cases h
+      · cases h
+theorem stable_53D : Stable F53D.parse F53D.ser := stable_of_reproduces _ _ f53D_reproduces
+
+/-- 53B -/
+theorem f53B_reproduces (s : Text) (v : OptB) (h : F53B.parse s = .ok v) : F53B.ser v = s := by
+  unfold F53B.parse at h
+  split at h
+  · rename_i he
+    cases h
+    have : s = [] := by cases s <;> simp_all
+    subst this; rfl
+  · simp only at h
+    split at h; · cases h
+    split at h; · cases h
+    split at h
+    · rename_i a b hsp
+      split at h; · cases h
+      split at h; · cases h
+      split at h; · cases h
+      split at h; · cases h
+      cases h
+      unfold F53B.ser; simp only [Option.isSome_some, if_true, Option.getD_some]
+      have := joinNl_splitNl s
+      rw [hsp] at this
+      simpa [joinNl] using this
+    · rename_i line hsp
+      have hj := joinNl_splitNl s
+      rw [hsp] at hj
+      split at h
+      · split at h; · cases h
+        split at h; · cases h
+        cases h
+        unfold F53B.ser; simpa [joinNl] using hj
+      · split at h; · cases h
+        split at h; · cases h
+        cases h
+        unfold F53B.ser; simpa [joinNl] using hj
+    · cases h
+theorem stable_53B : Stable F53B.parse F53B.ser := stable_of_reproduces _ _ f53B_reproduces
+
+theorem numberedLines_keep (ls r : List Text) (k : Nat) (h : numberedLines true ls k = .ok r) : r = ls := by
+  induction ls generalizing k r with
+  | nil => simp [numberedLines] at h; exact h
+  | cons l rest ih =>
+    unfold numberedLines at h
+    split at h
+    · split at h; · cases h
+      split at h; · cases h
+      split at h; · cases h
+      split at h; · cases h
+      split at h
+      · rename_i ls' hls
+        cases h
+        simp only [if_true]
+        rw [ih _ _ hls]
+      · cases h
+      · cases h
+    · cases h
+
+/-- 59F -/
+theorem f59F_reproduces (s : Text) (v : OptD) (h : F59F.parse s = .ok v) : F59F.ser v = s := by
+  unfold F59F.parse at h
+  split at h
+  · cases h
+  · rename_i l0 rest hsp
+    have hj := joinNl_splitNl s
+    rw [hsp] at hj
+    split at h
+    · cases h
+    · cases h
+    · rename_i p hp
+      have e1 := pid_value _ _ hp
+      split at h
+      · rename_i ls hls
+        split at h; · cases h
+        split at h; · cases h
+        cases h
+        have := numberedLines_keep _ _ _ hls
+        subst this
+        unfold F59F.ser; simp only
+        rw [e1] at hj
+        simpa using hj
+      · cases h
+      · cases h
+    · split at h
+      · rename_i ls hls
+        split at h; · cases h
+        split at h; · cases h
+        cases h
+        have := numberedLines_keep _ _ _ hls
+        subst this
+        unfold F59F.ser; simp only
+        simpa using hj
+      · cases h
+      · cases h
+theorem stable_59F : Stable F59F.parse F59F.ser := stable_of_reproduces _ _ f59F_reproduces
+
+
+
+theorem natDigits_of_digitVal {d : Char} {k : Nat} (h : digitVal d = some k) : natDigits k = [d] := by
+  have hk := C11.digitVal_lt h
+  unfold natDigits
+  simp only [hk, dif_pos]
+  rw [C11.digitChar_digitVal h]
+
+theorem numberedLines_strip (ls r : List Text) (k : Nat) (h : numberedLines false ls k = .ok r) : numberFrom k r = ls := by
+  induction ls generalizing k r with
+  | nil => simp [numberedLines] at h; subst h; rfl
+  | cons l rest ih =>
+    unfold numberedLines at h
+    split at h
+    · rename_i d text
+      split at h; · cases h
+      rename_i hd
+      split at h; · cases h
+      split at h; · cases h
+      split at h; · cases h
+      split at h
+      · rename_i ls' hls
+        cases h
+        simp only [Bool.false_eq_true, if_false]
+        unfold numberFrom
+        rw [ih _ _ hls]
+        have hd' : digitVal d = some k := by simpa using hd
+        rw [natDigits_of_digitVal hd']
+        rfl
+      · cases h
+      · cases h
+    · cases h
+
+/-- 50A: the line numbers are not kept in the value and are written again as 1, 2, … — which is what was read -/
+theorem f50A_reproduces (s : Text) (v : OptD) (h : F50A.parse s = .ok v) : F50A.ser v = s := by
+  unfold F50A.parse at h
+  split at h
+  · cases h
+  · rename_i l0 rest hsp
+    have hj := joinNl_splitNl s
+    rw [hsp] at hj
+    split at h
+    · rename_i ident
+      split at h; · cases h
+      split at h; · cases h
+      split at h; · cases h
+      split at h
+      · rename_i ls hls
+        split at h; · cases h
+        split at h; · cases h
+        cases h
+        unfold F50A.ser; simp only
+        rw [numberedLines_strip _ _ _ hls]
+        simpa using hj
+      · cases h
+      · cases h
+    · split at h
+      · rename_i ls hls
+        split at h; · cases h
+        split at h; · cases h
+        cases h
+        unfold F50A.ser; simp only
+        rw [numberedLines_strip _ _ _ hls]
+        simpa using hj
+      · cases h
+      · cases h
+theorem stable_50A : Stable F50A.parse F50A.ser := stable_of_reproduces _ _ f50A_reproduces
+
+
+
+theorem isAsciiT_take (t : Text) (n : Nat) (h : isAsciiT t = true) : isAsciiT (t.take n) = true := by
+  unfold isAsciiT at *
+  rw [List.all_eq_true] at *
+  intro c hc; exact h c (List.mem_of_mem_take hc)
+
+theorem isAsciiT_append (a b : Text) (ha : isAsciiT a = true) (hb : isAsciiT b = true) : isAsciiT (a ++ b) = true := by
+  unfold isAsciiT at *; rw [List.all_append, ha, hb]; rfl
+
+theorem parseAccount35_ok {t a : Text} (h : parseAccount35 t = .ok a) :
+    a = t ∧ t.isEmpty = false ∧ ¬ blen t > 35 ∧ t.all isSwiftX = true := by
+  unfold parseAccount35 at h
+  split at h; · cases h
+  rename_i h1
+  split at h; · cases h
+  rename_i h2
+  split at h
+  · rename_i h3; cases h; exact ⟨rfl, by simpa using h1, h2, h3⟩
+  · cases h
+
+/-- what is written for an accepted two-part value (account line, BIC line) is read back as that value -/
+theorem f25P_write (a b : Text) (hasc : isAsciiT a = true) (hbasc : isAsciiT b = true)
+    (hne : a.isEmpty = false) (hlen : ¬ blen a > 35) (hx : a.all isSwiftX = true)
+    (hnl : ∀ c ∈ a, c ≠ '\n') (hnlb : ∀ c ∈ b, c ≠ '\n') (hb : parseBic b = .ok b) :
+    F25P.parse (a ++ '\n' :: b) = .ok ⟨a, b⟩ := by
+  unfold F25P.parse
+  have hall : isAsciiT (a ++ '\n' :: b) = true := by
+    apply isAsciiT_append _ _ hasc
+    unfold isAsciiT at *; simp only [List.all_cons, hbasc, Bool.and_true]; decide
+  simp only [hall, Bool.not_true, Bool.false_eq_true, if_false]
+  rw [splitNl_append_nl a b hnl, splitNl_no_nl b hnlb]
+  simp only [hlen, if_false, hx, Bool.not_true, Bool.false_eq_true, hne, hb]
+
+theorem stable_25P : Stable F25P.parse F25P.ser := by
+  intro s v h
+  unfold F25P.parse at h
+  split at h; · cases h
+  rename_i hasc
+  have ha : isAsciiT s = true := by simpa using hasc
+  split at h
+  · cases h
+  · rename_i l0 rest hsp
+    have hj := joinNl_splitNl s
+    rw [hsp] at hj
+    have hno := splitNl_lines_no_nl s
+    rw [hsp] at hno
+    split at h; · cases h
+    rename_i hlen
+    split at h; · cases h
+    rename_i hx
+    split at h; · cases h
+    rename_i hne
+    split at h
+    · cases h
+    · rename_i l1
+      split at h
+      · rename_i b hb
+        cases h
+        have eb := parseBic_value _ _ hb
+        subst eb
+        unfold F25P.ser; simp only
+        have : l0 ++ '\n' :: b = s := by simpa [joinNl] using hj
+        rw [this]
+        -- parse s again
+        unfold F25P.parse
+        simp only [ha, Bool.not_true, Bool.false_eq_true, if_false, hsp, hlen, hx, hne, hb]
+      · cases h
+      · cases h
+    · -- one line: the BIC is cut from the end
+      have hs0 : l0 = s := by simpa [joinNl] using hj
+      have hnl : ∀ c ∈ s, c ≠ '\n' := by
+        have := hno l0 (by simp); rw [hs0] at this; exact this
+      split at h
+      · simp only at h
+        split at h
+        · rename_i h11
+          split at h
+          · rename_i a hacc
+            cases h
+            obtain ⟨rfl, e1, e2, e3⟩ := parseAccount35_ok hacc
+            have hb : parseBic (s.drop (s.length - 11)) = .ok (s.drop (s.length - 11)) := by
+              have : isOkRes (parseBic (s.drop (s.length - 11))) = true := by
+                simp only [Bool.and_eq_true] at h11; exact h11.2
+              cases hp : parseBic (s.drop (s.length - 11)) with
+              | ok b => rw [parseBic_value _ _ hp]
+              | err => rw [hp] at this; cases this
+              | panic => rw [hp] at this; cases this
+            exact f25P_write _ _ (isAsciiT_take s _ ha) (isAsciiT_drop s _ ha) e1 e2 e3
+              (fun c hc => hnl c (List.mem_of_mem_take hc)) (fun c hc => hnl c (List.mem_of_mem_drop hc)) hb
+          · cases h
+          · cases h
+        · split at h
+          · rename_i h8
+            split at h
+            · rename_i a hacc
+              cases h
+              obtain ⟨rfl, e1, e2, e3⟩ := parseAccount35_ok hacc
+              have hb : parseBic (s.drop (s.length - 8)) = .ok (s.drop (s.length - 8)) := by
+                have : isOkRes (parseBic (s.drop (s.length - 8))) = true := by
+                  simp only [Bool.and_eq_true] at h8; exact h8.2
+                cases hp : parseBic (s.drop (s.length - 8)) with
+                | ok b => rw [parseBic_value _ _ hp]
+                | err => rw [hp] at this; cases this
+                | panic => rw [hp] at this; cases this
+              exact f25P_write _ _ (isAsciiT_take s _ ha) (isAsciiT_drop s _ ha) e1 e2 e3
+                (fun c hc => hnl c (List.mem_of_mem_take hc)) (fun c hc => hnl c (List.mem_of_mem_drop hc)) hb
+            · cases h
+            · cases h
+          · cases h
+      · cases h
+
+
+
+theorem dropLast_append_getLast (l : List Text) (h : l ≠ []) : l.dropLast ++ [l.getLast?.getD []] = l := by
+  induction l with
+  | nil => exact absurd rfl h
+  | cons a r ih =>
+    cases r with
+    | nil => simp
+    | cons b r' =>
+      have := ih (by simp)
+      simp only [List.dropLast_cons_cons, List.cons_append]
+      rw [List.getLast?_cons_cons]
+      rw [this]
+
+theorem f50F_mid_value (mid : List Text) (p : Option Text) (names : List Text) (h : F50F.mid mid = .ok (p, names)) :
+    partyLine p ++ names = mid := by
+  unfold F50F.mid at h
+  split at h
+  · split at h; · cases h
+    split at h; · cases h
+    split at h; · cases h
+    cases h; rfl
+  · cases h; rfl
+
+theorem ser50F_eq (v : F50F) : F50F.ser v = joinNl ([v.account] ++ partyLine v.party ++ v.lines ++ [v.bic]) := by
+  unfold F50F.ser; cases v.party <;> rfl
+
+/-- 50F -/
+theorem f50F_reproduces (s : Text) (v : F50F) (h : F50F.parse s = .ok v) : F50F.ser v = s := by
+  unfold F50F.parse at h
+  split at h
+  · cases h
+  · cases h
+  · rename_i account more hne1 hsp
+    have hj := joinNl_splitNl s
+    rw [hsp] at hj
+    have hmore : more ≠ [] := fun h0 => hne1 h0
+    split at h; · cases h
+    split at h; · cases h
+    split at h; · cases h
+    split at h
+    · cases h
+    · cases h
+    · rename_i bic hbic
+      have eb := parseBic_value _ _ hbic
+      have emore := dropLast_append_getLast more hmore
+      rw [← eb] at emore
+      split at h
+      · cases h
+      · cases h
+      · rename_i party names hmid
+        split at h; · cases h
+        split at h; · cases h
+        cases h
+        have em := f50F_mid_value _ _ _ hmid
+        rw [ser50F_eq]; simp only
+        have : [account] ++ partyLine party ++ names ++ [bic] = account :: more := by
+          calc [account] ++ partyLine party ++ names ++ [bic]
+              = account :: ((partyLine party ++ names) ++ [bic]) := by simp
+            _ = account :: (more.dropLast ++ [bic]) := by rw [em]
+            _ = account :: more := by rw [emore]
+        rw [this]; exact hj
+
+theorem stable_50F : Stable F50F.parse F50F.ser := stable_of_reproduces _ _ f50F_reproduces
+
 /-! ### Message level: what the serialisers write is read back exactly
 
 `to_mt_string` writes every field as `:tag:content` followed by CRLF and drops the last CRLF (`append_field`,
